@@ -206,6 +206,13 @@ func init() {
 		ex.clockSlack = uint64(ex.concreteInt(args[0], "slack"))
 		return nil
 	})
+	// vfStepBudget(n): raises the per-path instruction budget for harnesses that run long concrete loops
+	reg("vf:vfStepBudget", func(ex *Exec, fr *Frame, args []Value, site ssa.Instruction) Value {
+		if n := int(ex.concreteInt(args[0], "step-budget")); n > ex.maxSteps {
+			ex.maxSteps = n
+		}
+		return nil
+	})
 	reg("vf:vfPanicsOff", func(ex *Exec, fr *Frame, args []Value, site ssa.Instruction) Value {
 		ex.w.panicsAreFindings = false
 		return nil
